@@ -11,6 +11,9 @@ from .scratch import Scratch, run_rule
 
 # (id, properties that must report it, file, old, new, description)
 MUTANTS = [
+    ('variance-sum-squared', ['C01', 'C04', 'C16'], 'src/mean.rs', '(self.sum_sq.value() - mean * self.sum.value()) / F::from(self.count - 1).unwrap()',
+     '(self.sum_sq.value() - self.sum.value() * self.sum.value() / F::from(self.count).unwrap()) / F::from(self.count - 1).unwrap()',
+     'variance through the squared sum: (data^2, n^2) intermediate, -inf clamped to a zero variance (seeds C01-k / C16-k)'),
     ('variance-unclamped', ['C01', 'C04', 'C05'], 'src/mean.rs', '        if variance < F::zero() {\n            F::zero()\n        } else {\n            variance\n        }', '        variance',
      'the one-pass variance reaches the square root unclamped (the defect repaired by 4307b4e: a constant sample is refused)'),
     ('dof-n', ['C01', 'C06'], 'src/mean.rs', 'let degrees_of_freedom = n - 1.;', 'let degrees_of_freedom = n;', 'n instead of n-1 degrees of freedom'),
@@ -125,7 +128,10 @@ def run_mutants(pid, chk=None):
 # rewrites that are equal over the reals but not in IEEE arithmetic are not "behaviour preserving"
 # for the IEEE-level property: sqrt(s*s/n) overflows to inf for s > 1.3e154 and then 0 * inf = NaN
 # at level exactly 1/2 (C11 reports that, correctly)
-SILENCE_EXCEPT = {'sem-form': {'C11'}}
+# `variance-form` (S2 - mean*S1 written as S2 - S1^2/n) squares the *sum*: (data^2, n^2) overflows n times before S2 does and,
+# with the zero clamp of the variance, yields a collapsed Ok interval (seeds C01-k / C16-k, DESIGN 31) - reported by the
+# range obligations of C01 / C04 / C16, correctly; it stays a silence case for every other property
+SILENCE_EXCEPT = {'sem-form': {'C11'}, 'variance-form': {'C01', 'C04', 'C16'}}
 
 
 def _silence_job(args):
